@@ -8,6 +8,7 @@ import (
 	"go/token"
 	"go/types"
 	"math/big"
+	"strconv"
 	"strings"
 
 	"golang.org/x/tools/go/ssa"
@@ -631,10 +632,29 @@ func (ex *Exec) binopTerms(fr *Frame, st *State, op token.Token, a, b Term, xt, 
 			s = sx("g_bitor", a.S, b.S)
 		case token.XOR:
 			s = sx("g_bitxor", a.S, b.S)
-		case token.SHL:
-			s = sx("g_shl", a.S, b.S)
-		case token.SHR:
-			s = sx("g_shr", a.S, b.S)
+		case token.SHL, token.SHR:
+			cnt := b.S
+			if vc.tc.isBV(b.T) {
+				cnt = ex.bvToInt(b.S, widthOf(b.T), isSigned(b.T))
+				if strings.HasPrefix(b.S, "(_ bv") {
+					cnt = strings.Fields(b.S[5:])[0]
+				}
+			}
+			if k, err := strconv.Atoi(cnt); err == nil && k >= 0 && k < 62 {
+				// shift by a constant on mathematical integers: exact multiplication / flooring division
+				p := new(big.Int).Lsh(big.NewInt(1), uint(k)).String()
+				if op == token.SHL {
+					r := Term{S: vc.define("ar", "Int", sx("*", a.S, p)), T: rt}
+					ex.overflowCheck(fr, st, r, pos)
+					return r
+				}
+				return Term{S: vc.define("ar", "Int", sx("div", a.S, p)), T: rt}
+			}
+			if op == token.SHL {
+				s = sx("g_shl", a.S, cnt)
+			} else {
+				s = sx("g_shr", a.S, cnt)
+			}
 		case token.EQL:
 			return Term{S: sEq(a.S, b.S), T: rt}
 		case token.NEQ:
@@ -794,6 +814,14 @@ func (ex *Exec) convert(fr *Frame, st *State, x *ssa.Convert) Value {
 		return ex.havocValue(st, "f2i", to)
 	case isFloatType(from) && isFloatType(to):
 		return Term{S: v.S, T: to}
+	case isStringType(to) && isByteSlice(from):
+		// string(bytes): a string with the same length and bytes
+		ex.strAxioms()
+		arr, ln := ex.sliceParts(v)
+		s := ex.vc.fresh("str", "Str")
+		ex.assume(st, sEq(sx("g_strlen", s), ln))
+		ex.assume(st, fmt.Sprintf("(forall ((qk! Int)) (! (=> (and (<= 0 qk!) (< qk! %s)) (= (g_strat %s qk!) (select %s qk!))) :pattern ((g_strat %s qk!))))", ln, s, arr, s))
+		return Term{S: s, T: to}
 	case isStringType(to) || isStringType(from):
 		ex.vc.note("string/byte-slice conversion is opaque in %s", funcKey(fr.fn))
 		return ex.havocValue(st, "strconv", to)
@@ -802,6 +830,15 @@ func (ex *Exec) convert(fr *Frame, st *State, x *ssa.Convert) Value {
 		return Term{S: v.S, T: to}
 	}
 	panic(unsupported("conversion " + from.String() + " -> " + to.String()))
+}
+
+func isByteSlice(t types.Type) bool {
+	sl, ok := t.Underlying().(*types.Slice)
+	if !ok {
+		return false
+	}
+	b, ok := sl.Elem().Underlying().(*types.Basic)
+	return ok && b.Kind() == types.Uint8
 }
 
 func rangeWithin(flo, fhi, lo, hi string) bool {
@@ -958,9 +995,11 @@ func (ex *Exec) strAxioms() {
 	vc.addAxiom("strlt_irrefl", "(forall ((a Str)) (! (not (g_strlt a a)) :pattern ((g_strlt a a))))", "g_strlt")
 	vc.addAxiom("strlt_total", "(forall ((a Str) (b Str)) (! (or (= a b) (g_strlt a b) (g_strlt b a)) :pattern ((g_strlt a b))))", "g_strlt")
 	vc.addAxiom("strlt_asym", "(forall ((a Str) (b Str)) (! (not (and (g_strlt a b) (g_strlt b a))) :pattern ((g_strlt a b))))", "g_strlt")
-	vc.addAxiom("strlen_nonneg", "(forall ((s Str)) (! (>= (g_strlen s) 0) :pattern ((g_strlen s))))", "g_strlen")
+	vc.addAxiom("strlen_nonneg", "(forall ((s Str)) (! (and (>= (g_strlen s) 0) (<= (g_strlen s) 4611686018427387904)) :pattern ((g_strlen s))))", "g_strlen")
 	vc.addAxiom("strlen_concat", "(forall ((a Str) (b Str)) (! (= (g_strlen (g_concat a b)) (+ (g_strlen a) (g_strlen b))) :pattern ((g_concat a b))))", "g_concat")
 	vc.addAxiom("strlen_substr", "(forall ((s Str) (i Int) (j Int)) (! (=> (and (<= 0 i) (<= i j) (<= j (g_strlen s))) (= (g_strlen (g_substr s i j)) (- j i))) :pattern ((g_substr s i j))))", "g_substr")
+	vc.addAxiom("substr_substr", "(forall ((s Str) (a Int) (b Int) (c Int) (d Int)) (! (=> (and (<= 0 a) (<= a b) (<= b (g_strlen s)) (<= 0 c) (<= c d) (<= d (- b a))) (= (g_substr (g_substr s a b) c d) (g_substr s (+ a c) (+ a d)))) :pattern ((g_substr (g_substr s a b) c d))))", "g_substr")
+	vc.addAxiom("substr_whole", "(forall ((s Str)) (! (= (g_substr s 0 (g_strlen s)) s) :pattern ((g_substr s 0 (g_strlen s)))))", "g_substr")
 	vc.addAxiom("strat_substr", "(forall ((s Str) (i Int) (j Int) (k Int)) (! (=> (and (<= 0 i) (<= i j) (<= j (g_strlen s)) (<= 0 k) (< k (- j i))) (= (g_strat (g_substr s i j) k) (g_strat s (+ i k)))) :pattern ((g_strat (g_substr s i j) k))))", "g_substr")
 	if !vc.tc.isBV(types.Typ[types.Uint8]) {
 		vc.addAxiom("strat_range", "(forall ((s Str) (i Int)) (! (and (<= 0 (g_strat s i)) (<= (g_strat s i) 255)) :pattern ((g_strat s i))))", "g_strat")
